@@ -63,7 +63,9 @@ def handle : List String → Option String
     let sigs ← parseNatLists sigs
     let ops ← if ops == "_" then some [] else (ops.splitOn "|").mapM parseMut
     let (xs, errs) := runMuts sigs ops
-    pure (expect (natListsOf xs ++ " " ++ natsOf errs) (realList ++ " " ++ realErrs))
+    let r := expect (natListsOf xs ++ " " ++ natsOf errs) (realList ++ " " ++ realErrs)
+    if r != "ok" then pure r else
+    pure ((PyGen.sigListMuts sigs ops (realList ++ " " ++ realErrs)).getD "ok")
   | ["c20.eq", k1, p1, s1, k2, p2, s2, real] => do
     let k1 ← k1.toNat?
     let k2 ← k2.toNat?
